@@ -52,6 +52,8 @@ class TimeoutDriver:
 
         async def fn(a, *, k):
             assert (a, k) == (1, 2)
+            if drv.warmup:
+                return "warm"
             while True:
                 gate = drv.gate = loop.create_future()
                 try:
@@ -80,6 +82,13 @@ class TimeoutDriver:
             raise asyncio.CancelledError()
 
         wrapped = timeout(float(self.T))(fn)
+        # the wrapper object is used once before the call under test (a call that ends normally at once): nothing of
+        # that first call - a timer, a result, a callback - may be left to influence the second one
+        self.warmup = True
+        first = loop.create_task(wrapped(1, k=2))
+        loop.quiesce()
+        self.warmup = False
+        self.warm_ok = first.done() and not first.cancelled() and first.exception() is None and first.result() == "warm"
 
         async def outer():
             try:
@@ -131,6 +140,8 @@ class TimeoutDriver:
             else:
                 caller = f"foreign exception {v!r}"
         errs = sum(1 for c in self.loop.exceptions if "never retrieved" not in str(c.get("message", "")))
+        if not self.warm_ok:
+            errs += 100    # the plain first call through the same wrapper did not simply return
         return dict(caller=caller, at=at, fn=self.fn_state, seen=self.seen,
                     timers=len(self.loop.pending_timers()), errs=errs)
 
